@@ -915,6 +915,8 @@ class MatrixProduct:
         else:
             assert self.qnidx == self.site_num-1
 
+        # nothing to sweep for a one-site chain or when `stop_idx` is the current center
+        idx = None
         for idx in self.iter_idx_list(full=False, stop_idx=stop_idx):
             self._push_cano(idx)
         # can't iter to idx == 0 or idx == self.site_num - 1
